@@ -242,6 +242,16 @@ where
                     }
                 }
 
+                #[cfg(mini_mcmc_verif)]
+                crate::verif::push(crate::verif::Event::ReporterTick {
+                    phase: 0,
+                    total,
+                    recent: most_recent.iter().map(|x: &Option<ChainStats>| x.as_ref().map(|s| s.n)).collect(),
+                    active: active.iter().map(|(i, _)| *i).collect(),
+                    next_active,
+                    n_finished,
+                });
+
                 // Update chain progress bar messages
                 // and compute average acceptance probability
                 let mut to_replace = vec![false; active.len()];
@@ -295,6 +305,16 @@ where
                 for i in to_remove.iter().rev() {
                     active.remove(*i);
                 }
+
+                #[cfg(mini_mcmc_verif)]
+                crate::verif::push(crate::verif::Event::ReporterTick {
+                    phase: 1,
+                    total,
+                    recent: most_recent.iter().map(|x: &Option<ChainStats>| x.as_ref().map(|s| s.n)).collect(),
+                    active: active.iter().map(|(i, _)| *i).collect(),
+                    next_active,
+                    n_finished,
+                });
 
                 if n_finished >= most_recent.len() {
                     break;
@@ -545,6 +565,30 @@ where
         (dim, sample)
     }
 
+    /// Verification hook: the adaptation state `(m, epsilon, epsilon_bar, h_bar, mu, n_discard)`.
+    #[cfg(mini_mcmc_verif)]
+    pub fn adapt_state(&self) -> (usize, T, T, T, T, usize) {
+        (self.m, self.epsilon, self.epsilon_bar, self.h_bar, self.mu, self.n_discard)
+    }
+
+    /// Verification hook: the private chain initialisation `run` performs before stepping.
+    #[cfg(mini_mcmc_verif)]
+    pub fn init_chain_verif(&mut self, n_collect: usize, n_discard: usize) -> (usize, Tensor<B, 2>) {
+        self.init_chain(n_collect, n_discard)
+    }
+
+    /// Verification hook: forces the step size (to drive `step` at chosen, also extreme, values).
+    #[cfg(mini_mcmc_verif)]
+    pub fn set_epsilon_verif(&mut self, epsilon: T) {
+        self.epsilon = epsilon;
+    }
+
+    /// Verification hook: replaces the chain's generator.
+    #[cfg(mini_mcmc_verif)]
+    pub fn set_rng_verif(&mut self, rng: SmallRng) {
+        self.rng = rng;
+    }
+
     /// Performs one NUTS update step, including tree expansion and adaptation updates.
     ///
     /// This method updates `self.position` and adaptation statistics in-place.
@@ -563,6 +607,16 @@ where
             T::from_f64(joint.into_scalar().to_f64()).expect("successful conversion from 64 to T");
         let exp1_obs = self.rng.sample(Exp1);
         let logu = joint - exp1_obs;
+        #[cfg(mini_mcmc_verif)]
+        crate::verif::push(crate::verif::Event::NutsStepStart {
+            m: self.m,
+            position: crate::verif::tensor_f64(&self.position),
+            momentum: crate::verif::tensor_f64(&mom_0),
+            joint: crate::verif::f(joint),
+            exp1: crate::verif::f(exp1_obs),
+            logu: crate::verif::f(logu),
+            epsilon: crate::verif::f(self.epsilon),
+        });
 
         let mut position_minus = self.position.clone();
         let mut position_plus = self.position.clone();
@@ -579,6 +633,12 @@ where
         while s {
             let u_run_1: T = self.rng.random::<T>();
             let v = (2 * (u_run_1 < T::from(0.5).unwrap()) as i8) - 1;
+            #[cfg(mini_mcmc_verif)]
+            crate::verif::push(crate::verif::Event::NutsDoubling {
+                j,
+                v,
+                u_run_1: crate::verif::f(u_run_1),
+            });
 
             let (position_prime, n_prime, s_prime) = {
                 if v == -1 {
@@ -659,6 +719,8 @@ where
                     / T::from(n).expect("successful conversion of n from usize to T"),
             );
             let u_run_2 = self.rng.random::<T>();
+            #[cfg(mini_mcmc_verif)]
+            let verif_accepted = s_prime && (u_run_2 < tmp);
             if s_prime && (u_run_2 < tmp) {
                 self.position = position_prime;
             }
@@ -671,6 +733,19 @@ where
                     mom_minus.clone(),
                     mom_plus.clone(),
                 );
+            #[cfg(mini_mcmc_verif)]
+            crate::verif::push(crate::verif::Event::NutsDoublingEnd {
+                n_prime,
+                s_prime,
+                alpha: crate::verif::f(alpha),
+                n_alpha,
+                u_run_2: crate::verif::f(u_run_2),
+                tmp: crate::verif::f(tmp),
+                accepted: verif_accepted,
+                n_after: n,
+                s_after: s,
+                position: crate::verif::tensor_f64(&self.position),
+            });
             j += 1
         }
 
@@ -689,6 +764,95 @@ where
         } else {
             self.epsilon = self.epsilon_bar;
         }
+        #[cfg(mini_mcmc_verif)]
+        crate::verif::push(crate::verif::Event::NutsStepEnd {
+            m: self.m,
+            position: crate::verif::tensor_f64(&self.position),
+            epsilon: crate::verif::f(self.epsilon),
+            epsilon_bar: crate::verif::f(self.epsilon_bar),
+            h_bar: crate::verif::f(self.h_bar),
+            mu: crate::verif::f(self.mu),
+            alpha: crate::verif::f(alpha),
+            n_alpha,
+        });
+    }
+}
+
+/// Verification hooks: public wrappers of the private building blocks.
+#[cfg(mini_mcmc_verif)]
+pub mod verif_api {
+    use super::*;
+
+    pub fn find_reasonable_epsilon_verif<B, T, GTarget>(
+        position: Tensor<B, 1>,
+        mom: Tensor<B, 1>,
+        gradient_target: &GTarget,
+    ) -> T
+    where
+        T: Float + Element,
+        B: AutodiffBackend,
+        GTarget: GradientTarget<T, B> + Sync,
+    {
+        find_reasonable_epsilon(position, mom, gradient_target)
+    }
+
+    #[allow(clippy::too_many_arguments, clippy::type_complexity)]
+    pub fn build_tree_verif<B, T, GTarget>(
+        position: Tensor<B, 1>,
+        mom: Tensor<B, 1>,
+        grad: Tensor<B, 1>,
+        logu: T,
+        v: i8,
+        j: usize,
+        epsilon: T,
+        gradient_target: &GTarget,
+        joint_0: T,
+        rng: &mut SmallRng,
+    ) -> (
+        Tensor<B, 1>,
+        Tensor<B, 1>,
+        Tensor<B, 1>,
+        Tensor<B, 1>,
+        Tensor<B, 1>,
+        Tensor<B, 1>,
+        Tensor<B, 1>,
+        Tensor<B, 1>,
+        Tensor<B, 1>,
+        usize,
+        bool,
+        T,
+        usize,
+    )
+    where
+        T: Float + Element,
+        B: AutodiffBackend,
+        GTarget: GradientTarget<T, B> + Sync,
+    {
+        build_tree(position, mom, grad, logu, v, j, epsilon, gradient_target, joint_0, rng)
+    }
+
+    pub fn leapfrog_verif<B, T, GTarget>(
+        position: Tensor<B, 1>,
+        mom: Tensor<B, 1>,
+        grad: Tensor<B, 1>,
+        epsilon: T,
+        gradient_target: &GTarget,
+    ) -> (Tensor<B, 1>, Tensor<B, 1>, Tensor<B, 1>, Tensor<B, 1>)
+    where
+        T: Float + ElementConversion,
+        B: AutodiffBackend,
+        GTarget: GradientTarget<T, B>,
+    {
+        leapfrog(position, mom, grad, epsilon, gradient_target)
+    }
+
+    pub fn stop_criterion_verif<B: AutodiffBackend>(
+        position_minus: Tensor<B, 1>,
+        position_plus: Tensor<B, 1>,
+        mom_minus: Tensor<B, 1>,
+        mom_plus: Tensor<B, 1>,
+    ) -> bool {
+        stop_criterion(position_minus, position_plus, mom_minus, mom_plus)
     }
 }
 
@@ -814,6 +978,16 @@ where
         let grad_plus = grad_prime.clone();
         let alpha_prime = T::min(T::one(), (joint - joint_0).exp());
         let n_alpha_prime = 1_usize;
+        #[cfg(mini_mcmc_verif)]
+        crate::verif::push(crate::verif::Event::NutsLeaf {
+            v,
+            position: crate::verif::tensor_f64(&position_prime),
+            momentum: crate::verif::tensor_f64(&mom_prime),
+            joint: crate::verif::f(joint),
+            n_prime,
+            s_prime,
+            alpha: crate::verif::f(alpha_prime),
+        });
         (
             position_minus,
             mom_minus,
@@ -909,6 +1083,11 @@ where
             }
 
             let u_build_tree: f64 = (*rng).random::<f64>();
+            #[cfg(mini_mcmc_verif)]
+            let verif_n_first = n_prime;
+            #[cfg(mini_mcmc_verif)]
+            let verif_took =
+                u_build_tree < (n_prime_2 as f64 / (n_prime + n_prime_2).max(1) as f64);
             if u_build_tree < (n_prime_2 as f64 / (n_prime + n_prime_2).max(1) as f64) {
                 position_prime = position_prime_2;
                 grad_prime = grad_prime_2;
@@ -927,6 +1106,18 @@ where
                 );
             alpha_prime = alpha_prime + alpha_prime_2;
             n_alpha_prime += n_alpha_prime_2;
+            #[cfg(mini_mcmc_verif)]
+            crate::verif::push(crate::verif::Event::NutsMerge {
+                j,
+                u: u_build_tree,
+                n_first: verif_n_first,
+                n_second: n_prime_2,
+                took_second: verif_took,
+                n_after: n_prime,
+                s_after: s_prime,
+                alpha_after: crate::verif::f(alpha_prime),
+                n_alpha_after: n_alpha_prime,
+            });
         }
         (
             position_minus,
